@@ -19,11 +19,11 @@ func init() {
 		okLayout := true
 		large := scen.BasketLarge() // basket totals around 34 significant digits
 		large.DepthQuick, large.DepthThor = 4, 5
-		rc := engineAWith("C19", tier, []scen.Spec{scen.C07Spec(tier != "thorough"), large},
+		rc := engineAWith("C19", tier, []scen.Spec{scen.ShortEscrowGenesis(), scen.C07Spec(tier != "thorough"), large},
 			func() []explore.Monitor { return []explore.Monitor{&mon.C19Coins{FeePool: scen.FeePool.String()}} },
 			budget(tier, 60*time.Second, 8*time.Minute),
 			func(o *runner.Outcome) { okLayout = pure.C19Into(tier, o, false) },
-			"use-site part: on every successful BuyDirect of the fee-rate x order-history seeds (the C07 scenario) the seller's payment is the truncation toward zero of the exact proceeds and the collected fee the truncation of the exact buyer fee + seller fee; fills needing more than 34 significant digits are outside the bound; in the large-basket scenario every successful Put mints the exact product and every successful Take releases the exact quotient (35-digit takes must be refused)",
+			"use-site part: on every successful BuyDirect of the fee-rate x order-history seeds (the C07 scenario) the seller's payment is the truncation toward zero of the exact proceeds and the collected fee the truncation of the exact buyer fee + seller fee; fills needing more than 34 significant digits are outside the bound; in the large-basket scenario every successful Put mints the exact product and every successful Take releases the exact quotient (35-digit takes must be refused); in every state no stored balance, supply, basket balance or order quantity is negative, including the histories of a genesis whose open orders exceed the seller's escrow (releasing or filling them must be an error)",
 			"the arithmetic part (coverage.arithmetic) is the bounded-exhaustive enumerator over types/math")
 		if !okLayout {
 			os.Exit(2)
